@@ -2,25 +2,36 @@
 
 Bounded-exhaustive exploration on the real `opticomlib.devices.MZM / PM / LASER`:
 
-* part `mzm.lattice`   deviation lattice (k <= 2 quick, k <= 3 thorough) over
-                       (drive values, bias, Vpi, loss, ER, pol) with the FULL product over
-                       (layout x noise kind x drive container) at every lattice point;
-* part `mzm.dtypes`    the same lattice with k-1 for the stored-dtype layouts (real / int64 / int32 / float32 /
-                       complex64 fields whose noise has the same dtype);
-* part `pm.product`    full product (layout incl. the dtype layouts x noise x container x drive values x Vpi) for PM;
-* part `pm.seq2/seq3`  every ordered sequence of 2 / 3 PM operations from a drive alphabet
-                       (additivity PM(PM(x,a),b) == PM(x,a+b));
-* part `laser.product` LASER under the scripted RNG: every phase-noise answer vector of the
-                       answer alphabet x every offset on an FFT bin x powers x linewidths x grids x
-                       time-vector kinds (float64 / float32 seconds, int64 / int32 / uint8 sample indices);
-* part `laser.nyquist` offsets beyond fs/2 must raise ValueError.
+* part `mzm.lattice`    deviation lattice (k <= 2 quick, k <= 3 thorough) over
+                        (drive values, bias, Vpi, loss, ER, pol) with the FULL product over
+                        (layout x noise kind x drive container) at every lattice point;
+* part `mzm.dtypes`     the same lattice with k-1 for the stored-dtype / scale / provenance layouts (real, int64, int32, uint8, bool,
+                        float16, float32, complex64 fields whose noise has the same dtype; empty second polarisation; x1e-9, x1e6,
+                        1e6 + small variation; mixed signal / noise dtypes; write-protected buffers; the return value of LASER);
+* part `mzm.containers` lattice k-1 for the further drive containers (numpy int64 / int32 / float32 scalars, 0-d array, bool; int8,
+                        uint8, int16, int32, bool, complex128 arrays, a write-protected strided view, tuple, electrical_signal WITH noise);
+* part `mzm.ptypes`     lattice k-1 with bias / Vpi / loss_dB / ER_dB given as python int, numpy int64 / int32 / float64 / float32,
+                        0-d array, bool;  part `mzm.grids`: lattice k-1 under other global grids;
+* part `mzm.badpol`     pol values other than 'x' / 'y' (rejected, or the result of one of the two settings), numpy str 'x' / 'y';
+* part `intlimits`      integer drive arrays holding the largest / smallest value of their dtype, bias 0 / +-1 V;
+* part `pm.product`     full product (layout incl. the dtype layouts x noise x container x drive values x Vpi) for PM;
+* part `pm.extra`       every container (incl. the further ones) x Vpi scalar types x grids on three layouts x three noise kinds;
+* part `pm.seq2/seq3`   every ordered sequence of 2 / 3 PM operations from a drive alphabet
+                        (additivity PM(PM(x,a),b) == PM(x,a+b));
+* part `chain.mixed`    every ordered sequence of 2 / 3 device calls (3 MZM settings, 3 PM drives): each step against its own input;
+* part `laser.product`  LASER under the scripted RNG: every phase-noise answer vector of the
+                        answer alphabet x every offset on an FFT bin x powers x linewidths x grids x
+                        time-vector kinds (float64 / float32 seconds, int64 / int32 / uint8 sample indices);
+* part `laser.lattice`  deviation lattice (k <= 3 / 4) over those axes extended by four more grids, prime N, a far time offset, scalar
+                        types of p / lw / df, extreme powers and RIN values (the phase terms stay pure rotations under RIN);
+* part `laser.nyquist`  offsets beyond fs/2 (factors of fs, the neighbouring doubles of +-fs/2, integers) must raise ValueError;
+* part `laser.gvseq`    every ordered pair of grids: a call, the grid reconfigured, then calls whose legality depends on the grid in force.
 
 MZM and PM are memoryless per sample, so the alphabets are per-sample: the six field values
 {0, 1, -1, j, 0.5-0.5j, 2} cycle with period 6 and the 17 drive levels {-2Vpi..2Vpi step Vpi/4}
 with period 17; the record `prod102` (N = 102 = 6*17, gcd = 1) contains every (field value,
-drive level) pair exactly once.  Record lengths are 1, 2, 3, 6, 102: for every field length N (N = 1 included)
-every drive length of {0, 2, 3, N-1, N+1, N+6, 2N} must raise ValueError in every waveform container (ndarray of
-float64 / int64 / float32, list, electrical_signal of float / int / complex / with noise); a length-1 array against
+drive level) pair exactly once.  Record lengths are 1, 2, 3, 6, 13, 102, 1025: for every field length N (N = 1 included)
+every drive length of {0, 2, 3, N-1, N+1, N+6, 2N} must raise ValueError in every waveform container; a length-1 array against
 N > 1 is either rejected with ValueError or applied as the constant drive (the statement leaves that open).
 
 Reference model (boring): out = in * sqrt(loss) * (cos th + j 10^(-ER/20) sin th),
@@ -52,10 +63,22 @@ INT6 = [0, 1, -1, 3, 2, -2]
 LAYOUTS = ['1pol', '2pol', '1pol-real', '1pol-seeded']
 # dtype classes of the STORED field (optical_signal keeps the dtype it is given; the noise of these layouts is cast to the
 # same dtype so that the field really stays real / integer / single precision inside the library)
-LAYOUTS_X = ['2pol-real', '1pol-int', '2pol-int32', '1pol-f32', '2pol-c64']
+LAYOUTS_X = ['2pol-real', '1pol-int', '2pol-int32', '1pol-f32', '2pol-c64',
+             # hardening pass: empty second polarisation; scaled fields (x1e-9, x1e6; noise scaled alike); large DC offset with a
+             # small variation; noise of another dtype than the signal (attribute assignment, as in the MZM docstring example);
+             # write-protected buffers; a field that is the RETURN VALUE of another device (LASER)
+             '2pol-yzero', '1pol-1e-9', '2pol-1e6', '1pol-dc', '1pol-mixed', '2pol-ro', '1pol-laser',
+             '1pol-u8', '1pol-f16', '2pol-bool']            # the remaining dtype kinds: unsigned, half precision, bool
+LAYOUT_SCALE = {'1pol-1e-9': 1e-9, '2pol-1e6': 1e6}
 LAYOUT_DTYPE = {'1pol-real': float, '2pol-real': float, '1pol-int': np.int64, '2pol-int32': np.int32,
-                '1pol-f32': np.float32, '2pol-c64': np.complex64}
+                '1pol-f32': np.float32, '2pol-c64': np.complex64, '1pol-u8': np.uint8, '1pol-f16': np.float16, '2pol-bool': np.bool_}
 NOISES = ['none', 'alt', 'zero', 'ramp', 'anti', 'seeded']   # 'alt' (+-0.1 alternating) has SUM == 0
+NOISES_2POL = ['xonly', 'yonly']      # two-polarisation layouts only: noise in ONE polarisation, the other all-zero
+
+
+def noises_of(layout, noises=None):
+    noises = NOISES if noises is None else noises
+    return list(noises) + (NOISES_2POL if layout.startswith('2pol') else [])
 # drive levels in quarters of Vpi, simplest first: 0, +-Vpi, +-Vpi/2, +-2Vpi, ...
 LEVELS = [1, 0, 4, -4, 2, -2, 8, -8, -1, 3, -3, 5, -5, 6, -6, 7, -7]
 WAVES = {
@@ -64,26 +87,69 @@ WAVES = {
     'neg6': [0, -1, -2, -4, 3, -8],
     'const4': [4],
     'prod102': [(i % 17) - 8 for i in range(102)],
+    'big6': [400, -400, 1000, -999, 4001, 0],      # 100 ... 1000 Vpi: the phase argument is hundreds of pi
 }
 # record lengths: 6 (one period of the field alphabet), 102, and the SHORT records 1, 2, 3 (a field of exactly one sample
 # is the corner where "length 1" stops meaning "scalar drive")
 WAVE_SPECS = [('wave', 'ramp6', 6), ('wave', 'alt01', 6), ('wave', 'neg6', 6), ('wave', 'const4', 6),
               ('lvl', 0, 6), ('wave', 'prod102', 102),
-              ('lvl', 4, 1), ('lvl', -1, 1), ('wave', 'alt01', 2), ('lvl', 2, 2), ('wave', 'neg6', 3)]
+              ('lvl', 4, 1), ('lvl', -1, 1), ('wave', 'alt01', 2), ('lvl', 2, 2), ('wave', 'neg6', 3),
+              ('wave', 'ramp6', 13), ('wave', 'big6', 6), ('wave', 'neg6', 1025)]     # prime length; huge drive; 1024 + 1
 LVL_SPECS = [('lvl', k, 6) for k in LEVELS] + [('lvl', 4, 1), ('lvl', 1, 1), ('lvl', 2, 2)]
 SCALAR_CONT = ['float', 'int', 'npfloat']
 WAVE_CONT_MZM = ['ndarray', 'ndarray_int', 'electrical_signal', 'list',
                  'ndarray_f32', 'electrical_signal_int', 'electrical_signal_cplx']
 WAVE_CONT_PM = ['ndarray', 'ndarray_int', 'electrical_signal', 'electrical_signal_noisy',
                 'ndarray_f32', 'electrical_signal_int', 'electrical_signal_cplx']
-INT_CONT = ('int', 'ndarray_int', 'electrical_signal_int')
+# hardening pass: further scalar types (numpy scalars, 0-d array, bool) and array dtypes / layouts (small and unsigned integers, bool,
+# complex with zero imaginary part, float16, a write-protected non-contiguous view, tuple, electrical_signal WITH noise)
+SCALAR_CONT_X = ['npint', 'npint32', 'npf32', 'zero_d', 'bool']
+WAVE_CONT_X_MZM = ['ndarray_i8', 'ndarray_u8', 'ndarray_i16', 'ndarray_i32', 'ndarray_bool', 'ndarray_c128', 'ndarray_ro',
+                   'tuple', 'electrical_signal_noisy']
+WAVE_CONT_X_PM = ['ndarray_i8', 'ndarray_u8', 'ndarray_i16', 'ndarray_i32', 'ndarray_bool', 'ndarray_c128', 'ndarray_ro',
+                  'ndarray_f16']
+# integer-valued containers: dtype and the range the voltages are clipped to (rint first)
+INT_RANGE = {'int': (None, -2.0 ** 62, 2.0 ** 62), 'ndarray_int': (np.int64, -2.0 ** 62, 2.0 ** 62),
+             'electrical_signal_int': (np.int64, -2.0 ** 62, 2.0 ** 62), 'npint': (np.int64, -2.0 ** 62, 2.0 ** 62),
+             'npint32': (np.int32, -2.0 ** 31, 2.0 ** 31 - 1), 'bool': (None, 0, 1),
+             'ndarray_i8': (np.int8, -128, 127), 'ndarray_u8': (np.uint8, 0, 255), 'ndarray_i16': (np.int16, -32768, 32767),
+             'ndarray_i32': (np.int32, -2.0 ** 31, 2.0 ** 31 - 1), 'ndarray_bool': (np.bool_, 0, 1)}
+INT_CONT = tuple(INT_RANGE)
 ES_CONT = ('electrical_signal', 'electrical_signal_noisy', 'electrical_signal_int', 'electrical_signal_cplx')
+# spelling of the numeric parameters (bias, Vpi, loss_dB, ER_dB; Vpi of PM; p, lw, df of LASER): the value in another scalar type
+# whenever it is exactly representable there.  Unsigned and 8/16-bit numpy scalars are NOT parameter forms of this check (coordinator
+# decision: the statement does not speak about parameter types; -np.uint8(x) wraps inside MZM, see notes "outside the statement")
+PTYPES = ['float', 'int', 'npint64', 'npint32', 'npf64', 'npf32', 'zero_d', 'bool']
+# global-grid configurations the devices are called under (MZM / PM never read the grid with BW=None: results must not depend on it)
+GRIDS_MP = [{}, {'sps': 8, 'R': 1e9, 'wavelength': 1310e-9, 'N': 4}, {'R': 3e9, 'fs': 10e9}]
+
+
+def spell(kind, v):
+    """the number v as the scalar type `kind` when it is exactly representable there, else v itself"""
+    f = float(v)
+    integral = np.isfinite(f) and f == np.rint(f)
+    if kind == 'int' and integral:
+        return int(f)
+    if kind == 'npint64' and integral and abs(f) < 2.0 ** 62:
+        return np.int64(f)
+    if kind == 'npint32' and integral and abs(f) < 2.0 ** 31:
+        return np.int32(f)
+    if kind == 'bool' and f in (0.0, 1.0):
+        return bool(f)
+    if kind == 'npf32' and float(np.float32(f)) == f:
+        return np.float32(f)
+    if kind == 'npf64':
+        return np.float64(f)
+    if kind == 'zero_d':
+        return np.array(f)
+    return v
 
 
 def prec_of(conts):
     """working precision of the library arithmetic in units of the double eps: a float32 drive array makes numpy evaluate
-    theta / the phase and cos/sin/exp in single precision (same operation count, every rounding is a float32 rounding)"""
-    return EPS32 / EPS if any(c == 'ndarray_f32' for c in conts) else 1.0
+    theta / the phase and cos/sin/exp in single precision (same operation count, every rounding is a float32 rounding);
+    a float16 array times 1j is complex64 (PM only; MZM would evaluate cos/sin in HALF precision, not enumerated)"""
+    return EPS32 / EPS if any(c in ('ndarray_f32', 'ndarray_f16', 'npf32') for c in conts) else 1.0
 
 
 def wrong_lengths(N, cont):
@@ -95,14 +161,17 @@ def wrong_lengths(N, cont):
     return sorted(bad)
 
 BIAS = [0.0, 0.5, -1.0, 0.3]          # in units of Vpi
-VPI = [5.0, 1.7, 1]                   # 1 is a python int on purpose
-LOSS = [0.0, 2.0, 10.0, 0.5]          # dB
-ER = [26.0, 0.0, 10.0, 60.0, 12.5]    # dB
+VPI = [5.0, 1.7, 1, 1e-3]             # 1 is a python int on purpose; 1e-3: extreme but legal (drives scale with Vpi)
+TINY = 5e-324                         # the smallest positive double: "one ulp inside" the lower limit 0
+LOSS = [0.0, 2.0, 10.0, 0.5, TINY, 200.0]          # dB; both ends of loss_dB >= 0 and an extreme value
+ER = [26.0, 0.0, 10.0, 60.0, 12.5, TINY, float(np.nextafter(60.0, 0.0))]    # dB; both limits exactly and one ulp inside
 POL = ['x', 'y']
+# pol values that are NOT one of the two settings (several contain a valid token); ('npstr', 'y') is numpy's str subclass: VALID
+BAD_POL = ['X', 'Y', 'z', '', 'xy', 'yx', 'xx', 'x ', ' y', 'x,y', 'pol', 0, 1, None, True, ('x',)]
 
 
 def is_scalar_cont(c):
-    return c in SCALAR_CONT
+    return c in SCALAR_CONT or c in SCALAR_CONT_X
 
 
 # ----------------------------------------------------------------------------- builders
@@ -131,12 +200,33 @@ def build_field(layout, N, seed):
     if layout == '1pol-seeded':
         r = np.random.RandomState(seed % (2 ** 31))
         return r.standard_normal(N) + 1j * r.standard_normal(N)
+    if layout == '1pol-u8':
+        return np.array([abs(v) for v in _cyc(INT6, N)], np.uint8)
+    if layout == '1pol-f16':
+        return np.array(_cyc(REAL6, N), np.float16)
+    if layout == '2pol-bool':
+        return np.array([_cyc(INT6, N), _cyc(INT6, N, 1)]) != 0
+    if layout == '2pol-yzero':                       # second polarisation present but empty
+        return np.array([_cyc(FIELD6, N), [0] * N], complex)
+    if layout in LAYOUT_SCALE:                       # the same field values at another scale (the devices are linear in the field)
+        base = build_field('2pol' if layout.startswith('2pol') else '1pol', N, seed)
+        return base * LAYOUT_SCALE[layout]
+    if layout == '1pol-dc':                          # large DC offset with a small variation
+        return 1e6 + 1e-3 * np.array(_cyc(FIELD6, N), complex)
+    if layout == '1pol-mixed':
+        return np.array(_cyc(FIELD6, N), complex)
+    if layout == '2pol-ro':
+        return build_field('2pol', N, seed)
     raise KeyError(layout)
 
 
 def build_noise(kind, layout, N, seed):
     n = _build_noise(kind, layout, N, seed)
     dt = LAYOUT_DTYPE.get(layout) if layout in LAYOUTS_X else None     # '1pol-real' keeps its historical complex noise
+    if n is not None and layout in LAYOUT_SCALE:
+        return n * LAYOUT_SCALE[layout]
+    if n is not None and layout == '1pol-mixed':                        # real single-precision noise next to a complex128 signal
+        return (n.real + n.imag).astype(np.float32)
     if n is None or dt is None:
         return n
     if dt is np.complex64:
@@ -144,6 +234,10 @@ def build_noise(kind, layout, N, seed):
     r = n.real + n.imag                                                 # non-zero wherever n is
     if dt in (np.int64, np.int32):
         return np.rint(20 * r).astype(dt)                               # 'alt' -> +-2, 'ramp' -> 0,0,0,1,1,1, ...
+    if dt is np.uint8:
+        return np.rint(20 * np.abs(r)).astype(dt)
+    if dt is np.bool_:
+        return np.rint(20 * r) != 0
     return r.astype(dt)
 
 
@@ -168,6 +262,10 @@ def _build_noise(kind, layout, N, seed):
         r = np.random.RandomState((seed + 7919) % (2 ** 31))
         sh = (2, N) if two else (N,)
         return 0.1 * (r.standard_normal(sh) + 1j * r.standard_normal(sh))
+    if kind in ('xonly', 'yonly'):         # noise in ONE polarisation only, the other one all-zero
+        n = 0.1 * (i + 1) / N * (1 - 0.5j)
+        z = np.zeros(N, complex)
+        return np.array([n, z] if kind == 'xonly' else [z, n])
     raise KeyError(kind)
 
 
@@ -182,29 +280,61 @@ def drive_values(spec, Vpi, cont, N=None):
         q = np.array([w[i % len(w)] for i in range(N)], float)
     u = q / 4.0 * float(Vpi)
     if cont in INT_CONT:
-        u = np.rint(u)
-    if cont == 'ndarray_f32':
+        _, lo, hi = INT_RANGE[cont]
+        u = np.clip(np.rint(u), lo, hi)             # the nearest voltages the integer container can carry
+    if cont in ('ndarray_f32', 'npf32'):
         u = u.astype(np.float32).astype(float)      # the voltages the float32 container really carries
+    if cont == 'ndarray_f16':
+        u = u.astype(np.float16).astype(float)
     return u
+
+
+def drive_noise(n):
+    """the electrical noise component carried by the container `electrical_signal_noisy`"""
+    return 0.3 * (1 - 2 * (np.arange(n) % 2)) + 0.05 * np.arange(n)
 
 
 def realise(u, cont):
     """wrap the voltages u (float array) in the container type; ints fall back to the float
     counterpart when the values are not integers (used only for the derived on/off and +2Vpi calls)"""
     from opticomlib.typing import electrical_signal
-    integral = bool(np.all(u == np.rint(u)))
-    if cont == 'int' and not integral:
-        cont = 'float'
-    if cont == 'ndarray_int' and not integral:
-        cont = 'ndarray'
-    if cont == 'electrical_signal_int' and not integral:
-        cont = 'electrical_signal'
+    u = np.asarray(u, float)
+    if cont in INT_CONT:
+        _, lo, hi = INT_RANGE[cont]
+        if not bool(np.all((u == np.rint(u)) & (u >= lo) & (u <= hi))):
+            cont = 'electrical_signal' if cont == 'electrical_signal_int' else ('float' if is_scalar_cont(cont) else 'ndarray')
+    if cont in ('npf32', 'ndarray_f32', 'ndarray_f16'):
+        dt = np.float16 if cont == 'ndarray_f16' else np.float32
+        if not bool(np.all(u.astype(dt).astype(float) == u)):
+            cont = 'float' if cont == 'npf32' else 'ndarray'
     if cont == 'float':
         return float(u[0])
     if cont == 'int':
         return int(u[0])
     if cont == 'npfloat':
         return np.float64(u[0])
+    if cont == 'npint':
+        return np.int64(u[0])
+    if cont == 'npint32':
+        return np.int32(u[0])
+    if cont == 'npf32':
+        return np.float32(u[0])
+    if cont == 'zero_d':
+        return np.array(float(u[0]))
+    if cont == 'bool':
+        return bool(u[0])
+    if cont in ('ndarray_i8', 'ndarray_u8', 'ndarray_i16', 'ndarray_i32', 'ndarray_bool'):
+        return np.array(u).astype(INT_RANGE[cont][0])
+    if cont == 'ndarray_f16':
+        return np.array(u, np.float16)
+    if cont == 'ndarray_c128':                 # complex dtype, zero imaginary part
+        return np.array(u, complex)
+    if cont == 'ndarray_ro':                   # write-protected, non-contiguous view of a float64 buffer
+        b = np.repeat(np.array(u, float), 2)
+        b.flags.writeable = False
+        return b[::2]
+    if cont == 'tuple':
+        return tuple(float(v) for v in u)
     if cont == 'ndarray':
         return np.array(u, float)
     if cont == 'ndarray_int':
@@ -219,7 +349,7 @@ def realise(u, cont):
         return electrical_signal(np.array(u, complex))
     if cont == 'electrical_signal_noisy':      # a drive that carries its own (electrical) noise component
         uu = np.array(u, float)
-        return electrical_signal(uu, 0.3 * (1 - 2 * (np.arange(uu.size) % 2)) + 0.05 * np.arange(uu.size))
+        return electrical_signal(uu, drive_noise(uu.size))
     if cont == 'list':
         return [float(v) for v in u]
     raise KeyError(cont)
@@ -227,9 +357,27 @@ def realise(u, cont):
 
 def make_input(layout, noise, N, seed):
     from opticomlib.typing import optical_signal
-    s = build_field(layout, N, seed)
-    n = build_noise(noise, layout, N, seed)
-    x = optical_signal(s, n)
+    if layout == '1pol-laser':
+        # the RETURN VALUE of another device: LASER on the present grid, offset fs/8, 1 mW; the noise is attached afterwards
+        from opticomlib.devices import LASER
+        from opticomlib.typing import gv
+        x = LASER(np.arange(N) * gv.dt, 0.0, df=gv.fs / 8)
+        n = build_noise(noise, '1pol', N, seed)
+        if n is not None:
+            x.noise = 0.03 * n
+    elif layout == '1pol-mixed':
+        x = optical_signal(build_field(layout, N, seed))
+        n = build_noise(noise, layout, N, seed)
+        if n is not None:
+            x.noise = n                     # attribute assignment (as the MZM docstring example does): no dtype harmonisation
+    else:
+        s = build_field(layout, N, seed)
+        n = build_noise(noise, layout, N, seed)
+        x = optical_signal(s, n)
+    if layout == '2pol-ro':                 # write-protected buffers: the devices must not need to write into their operand
+        x.signal.flags.writeable = False
+        if x.noise is not None:
+            x.noise.flags.writeable = False
     # the reference works on the STORED values, converted exactly to complex128 (every stored dtype embeds exactly)
     s_in = np.array(x.signal).astype(complex)
     n_in = None if x.noise is None else np.array(x.noise).astype(complex)
@@ -291,26 +439,40 @@ def _pm_units(phis, phi_tot):
 # ----------------------------------------------------------------------------- MZM
 def mzm_case(case):
     from opticomlib.devices import MZM
-    gv_reset()
+    from opticomlib.typing import gv as _gv
+    gv_reset(**case.get('grid', {}))
     layout, noise, cont, spec = case['layout'], case['noise'], case['cont'], case['drive']
     N, seed = case['N'], case['seed']
-    Vpi, loss_dB, ER_dB, pol = case['Vpi'], case['loss'], case['ER'], case['pol']
+    pt = case.get('pt', 'float')
+    # the numeric parameters in the scalar type `pt` (python float / int / bool, numpy int64 / int32 / float64 / float32, 0-d array) wherever the value
+    # is exactly representable there; the reference uses the float values
+    Vpi_s = spell(pt, case['Vpi'])
+    Vpi = case['Vpi'] if pt == 'float' else float(Vpi_s)
+    loss_dB, ER_dB, pol = case['loss'], case['ER'], case['pol']
     bias = case['bias'] * float(Vpi)
+    bias_s, loss_s, ER_s = spell(pt, bias), spell(pt, loss_dB), spell(pt, ER_dB)
+    if pt == 'float':
+        Vpi_s = Vpi                                                     # the alphabet member itself (1 is a python int)
     x, s_in, n_in = make_input(layout, noise, N, seed)
     u = drive_values(spec, Vpi, cont, N)
     viol, stats = [], {'mzm_calls': 0, f'mzm_field_dtype_{x.signal.dtype.name}': 1}
     tag = f'{cont}-drive'
-    prec = prec_of([cont])
+    prec = max(prec_of([cont]), EPS32 / EPS if pt == 'npf32' else 1.0)
+    pdesc = '' if pt == 'float' else f', parameter types={pt}: bias={bias_s!r}, Vpi={Vpi_s!r}, loss_dB={loss_s!r}, ER_dB={ER_s!r}'
 
     def fail(key, msg):
         viol.append((key, f'MZM(layout={layout}, noise={noise}, N={N}, drive={cont}:{spec[:2]} u={_short(u)}, bias={bias}, '
-                          f'Vpi={Vpi!r}, loss_dB={loss_dB}, ER_dB={ER_dB}, pol={pol}): {msg}'))
+                          f'Vpi={Vpi!r}, loss_dB={loss_dB}, ER_dB={ER_dB}, pol={pol}{pdesc}): {msg}'))
+
+    def call(d, p=pol):
+        stats['mzm_calls'] += 1
+        return lib_call(MZM, x, d, bias=bias_s, Vpi=Vpi_s, loss_dB=loss_s, ER_dB=ER_s, pol=p)
 
     def run(uu, c=cont):
-        stats['mzm_calls'] += 1
-        return lib_call(MZM, x, realise(uu, c), bias=bias, Vpi=Vpi, loss_dB=loss_dB, ER_dB=ER_dB, pol=pol)
+        return call(realise(uu, c))
 
-    out, exc = run(u)
+    d0 = realise(u, cont)                  # ONE drive object: passed again to the later calls on the same input object
+    out, exc = call(d0)
     if exc is not None:
         fail(f'MZM:{tag}:{type(exc).__name__}', f'raised {type(exc).__name__}: {exc}')
         return res(viol=viol, obs=('EXC', type(exc).__name__), nontrivial=True, stats=stats)
@@ -319,20 +481,31 @@ def mzm_case(case):
     sel = 0 if pol == 'x' else 1
     rl = 10.0 ** (-loss_dB / 20.0)
     r = 10.0 ** (-ER_dB / 20.0)
-    theta = np.pi * (u + bias) / (2.0 * float(Vpi))
-    h = rl * (np.cos(theta) + 1j * r * np.sin(theta))
-    units = prec * _mzm_units(float(np.max(np.abs(theta))) + np.pi)     # +pi: the shifted drive of the periodicity clause
-
     osig = np.asarray(out.signal)
     onoise = None if out.noise is None else np.asarray(out.noise)
     obs = (_bytes(osig), _bytes(onoise))
     if osig.shape != s_in.shape or (onoise is not None and onoise.shape != s_in.shape):
         fail('MZM:shape', f'output shape {osig.shape}/{None if onoise is None else onoise.shape} != input shape {s_in.shape}')
         return res(viol=viol, obs=obs, nontrivial=True, stats=stats)
-
     pick = (lambda a: a[sel]) if two else (lambda a: a)      # the modulated polarisation
-    ref_s = s_in * h
     scale_s = rl * np.abs(s_in)
+
+    def model(uu):
+        th = np.pi * (uu + bias) / (2.0 * float(Vpi))
+        return th, rl * (np.cos(th) + 1j * r * np.sin(th)), prec * _mzm_units(float(np.max(np.abs(th))) + np.pi)   # +pi: shifted drive
+
+    theta, h, units = model(u)
+    drive_noise_used = False
+    if cont == 'electrical_signal_noisy':
+        # The statement does not say whether the NOISE COMPONENT OF THE DRIVE takes part in the modulation.  Both readings are
+        # accepted, but nothing else: the field is modulated by u = drive.signal or by u = drive.signal + drive.noise - and the
+        # accompanying optical noise by the SAME transfer function.
+        th2, h2, units2 = model(u + drive_noise(N))
+        if _excess(pick(osig), pick(s_in * h), pick(scale_s), units) and not _excess(pick(osig), pick(s_in * h2), pick(scale_s), units2):
+            theta, h, units, drive_noise_used = th2, h2, units2, True
+        stats['mzm_noisy_drive_noise_' + ('used' if drive_noise_used else 'ignored')] = 1
+
+    ref_s = s_in * h
 
     # --- transfer function on the signal (selected polarisation) ---
     e = _excess(pick(osig), pick(ref_s), pick(scale_s), units)
@@ -349,7 +522,8 @@ def mzm_case(case):
     if _nz(n_in):
         zs = 'zero-sum-noise' if np.sum(n_in) == 0 else 'nonzero-sum-noise'
         if onoise is None:
-            fail(f'MZM:noise-dropped:{zs}', 'input noise is non-zero but output.noise is None')
+            if _nz(pick(n_in)):          # (noise only in the unselected polarisation: the expected output noise is all-zero, None is as good)
+                fail(f'MZM:noise-dropped:{zs}', 'input noise is non-zero but output.noise is None')
         else:
             ref_n = n_in * h
             scale_n = rl * np.abs(n_in)
@@ -365,7 +539,7 @@ def mzm_case(case):
         fail('MZM:noise-created', f'input noise absent/zero but output noise is {_short(onoise)}')
 
     # --- containers give identical results (against the float counterpart holding the same voltages) ---
-    if cont not in ('float', 'ndarray'):
+    if cont not in ('float', 'ndarray') and not drive_noise_used:
         base = 'float' if is_scalar_cont(cont) else 'ndarray'
         o2, exc2 = run(u, base)
         if exc2 is None:
@@ -373,7 +547,7 @@ def mzm_case(case):
             dn = None
             if onoise is not None and o2.noise is not None:
                 dn = _excess(np.asarray(o2.noise), onoise, rl * np.abs(n_in), 2 * units)
-            if d or dn or ((onoise is None) != (o2.noise is None) and _nz(n_in)):
+            if d or dn or ((onoise is None) != (o2.noise is None) and _nz(pick(n_in))):
                 fail(f'MZM:containers-differ:{cont}', f'result with a {cont} drive differs from the result with the same voltages as {base}')
             stats['mzm_container_bitwise_equal'] = int(_bytes(o2.signal) == _bytes(osig))
             stats['mzm_container_pairs'] = 1
@@ -398,7 +572,7 @@ def mzm_case(case):
     if e_on is not None or e_off is not None:
         ee = e_on or e_off
         fail(f'MZM:{tag}:{type(ee).__name__}', f'constant on/off drive raised {type(ee).__name__}: {ee}')
-    else:
+    elif not drive_noise_used:
         p_on, p_off = np.abs(np.asarray(on.signal)) ** 2, np.abs(np.asarray(off.signal)) ** 2
         er_lin = 10.0 ** (ER_dB / 10.0)
         lim = 64 * EPS * prec * scale_s ** 2   # P_on = loss |in|^2 (1 +- few eps); cos(pi/2)^2 * ER_lin <= 1e-24 is far below
@@ -429,14 +603,39 @@ def mzm_case(case):
                     fail(f'MZM:len1-drive:{type(ex).__name__}', f'{cont} drive of length 1 for a field of length {N} raised {type(ex).__name__}: {ex}')
             else:
                 stats['mzm_len1_drive_accepted'] = 1
-                th1 = np.pi * (u1[0] + bias) / (2.0 * float(Vpi))
-                ref1 = s_in * (rl * (np.cos(th1) + 1j * r * np.sin(th1)))
-                if two:
-                    ref1[1 - sel] = 0
+                ok1 = False
                 o1s = np.asarray(o1.signal)
-                if o1s.shape != s_in.shape or _excess(o1s, ref1, scale_s, units):
+                for u1v in ([u1[0]] + ([u1[0] + drive_noise(1)[0]] if cont == 'electrical_signal_noisy' else [])):
+                    th1 = np.pi * (u1v + bias) / (2.0 * float(Vpi))
+                    ref1 = s_in * (rl * (np.cos(th1) + 1j * r * np.sin(th1)))
+                    if two:
+                        ref1[1 - sel] = 0
+                    ok1 = ok1 or (o1s.shape == s_in.shape and not _excess(o1s, ref1, scale_s, units))
+                if not ok1:
                     fail('MZM:len1-drive:not-the-constant-drive', f'{cont} drive of length 1 ({u1[0]!r}) for a field of length {N} was accepted '
                                                                   f'but the output (shape {o1s.shape}) is not in*h(u) sample by sample')
+
+    # --- sweep on the SAME input object and the SAME drive object: the other polarisation setting, then the first call again
+    #     after the global grid was reconfigured (MZM without BW does not depend on the grid): both follow from out = in*h ---
+    if two:
+        op, exp_ = call(d0, 'y' if pol == 'x' else 'x')
+        if exp_ is not None:
+            fail(f'MZM:{tag}:{type(exp_).__name__}', f'second call on the same input object with the other pol raised {type(exp_).__name__}: {exp_}')
+        else:
+            ops_ = np.asarray(op.signal)
+            if ops_.shape != s_in.shape or _excess(ops_[1 - sel], ref_s[1 - sel], scale_s[1 - sel], units) or np.any(ops_[sel] != 0):
+                fail('MZM:shared-input-sweep', f'second call on the SAME input object with pol={"y" if pol == "x" else "x"}: the output is not '
+                                               f'in*h on that polarisation and 0 on the other one (was the operand modified by the first call?)')
+    import warnings
+    with warnings.catch_warnings():
+        warnings.simplefilter('ignore')
+        _gv(sps=4, R=2e9, wavelength=1300e-9)
+    orr, exr = call(d0)
+    if exr is not None:
+        fail(f'MZM:{tag}:{type(exr).__name__}', f'the same call repeated (same objects, grid reconfigured to sps=4, R=2e9) raised {type(exr).__name__}: {exr}')
+    elif _bytes(orr.signal) != obs[0] or _bytes(orr.noise) != obs[1]:
+        fail('MZM:repeat-call-differs', 'the same call repeated with the same input and drive objects after the global grid was reconfigured '
+                                        '(sps=4, R=2e9, 1300 nm) returns a different result')
 
     nt = _nz(n_in) or two or not is_scalar_cont(cont) or cont != 'float'
     return res(viol=viol, obs=obs, nontrivial=bool(nt), stats=stats)
@@ -451,25 +650,38 @@ def _short(a):
 def pm_case(case):
     """case['ops'] = [(container, spec), ...] applied in order: y = PM(...PM(PM(x,u1),u2)...)"""
     from opticomlib.devices import PM
-    gv_reset()
-    layout, noise, N, seed, Vpi = case['layout'], case['noise'], case['N'], case['seed'], case['Vpi']
+    from opticomlib.typing import gv as _gv
+    gv_reset(**case.get('grid', {}))
+    layout, noise, N, seed = case['layout'], case['noise'], case['N'], case['seed']
+    vt = case.get('vt', 'float')                     # scalar type Vpi is given in
+    Vpi_s = case['Vpi'] if vt == 'float' else spell(vt, case['Vpi'])
+    Vpi = case['Vpi'] if vt == 'float' else float(Vpi_s)
     ops = case['ops']
     x, s_in, n_in = make_input(layout, noise, N, seed)
     viol, stats = [], {'pm_calls': 0, f'pm_field_dtype_{x.signal.dtype.name}': 1}
-    prec = prec_of([c for c, _ in ops])
+    prec = max(prec_of([c for c, _ in ops]), EPS32 / EPS if vt == 'npf32' else 1.0)
     us = [drive_values(spec, Vpi, cont, N) for cont, spec in ops]
     utot = np.sum(us, axis=0)
     desc = ' -> '.join(f'{c}:{_short(u) if not is_scalar_cont(c) else u[0]!r}' for (c, _), u in zip(ops, us))
 
     def fail(key, msg):
-        viol.append((key, f'PM chain [{desc}] on (layout={layout}, noise={noise}, N={N}, Vpi={Vpi!r}): {msg}'))
+        viol.append((key, f'PM chain [{desc}] on (layout={layout}, noise={noise}, N={N}, Vpi={Vpi_s!r}): {msg}'))
 
     y = x
+    first = None
     for k, ((cont, spec), u) in enumerate(zip(ops, us)):
         n_before = None if y.noise is None else np.array(y.noise)
         stats['pm_calls'] += 1
-        y2, exc = lib_call(PM, y, realise(u, cont), Vpi)
+        d = realise(u, cont)
+        y2, exc = lib_call(PM, y, d, Vpi_s)
+        if k == 0:
+            first = d
         if exc is not None:
+            if isinstance(exc, TypeError) and cont in SCALAR_CONT_X:
+                # PM documents TypeError for drives that are not float / ndarray / electrical_signal; whether a numpy integer / float32
+                # scalar or a 0-d array is a "scalar drive" is not said: rejected with the documented TypeError or applied, nothing else
+                stats[f'pm_scalar_{cont}_rejected_TypeError'] = 1
+                return res(viol=viol, obs=('TYPEERROR', k, cont), nontrivial=True, stats=stats)
             fail(f'PM:{cont}-drive:{type(exc).__name__}', f'op {k + 1} ({cont} drive of matching length {N}) raised {type(exc).__name__}: {exc}')
             return res(viol=viol, obs=('EXC', k, type(exc).__name__), nontrivial=True, stats=stats)
         if _nz(n_before) and (y2.noise is None or not np.any(np.asarray(y2.noise) != 0)):
@@ -489,6 +701,12 @@ def pm_case(case):
         fail('PM:shape', f'output shape {osig.shape} != input shape {s_in.shape}')
         return res(viol=viol, obs=obs, nontrivial=True, stats=stats)
 
+    phis = [float(np.max(np.abs(u))) * np.pi / float(Vpi) for u in us]
+    phi_tot = float(np.max(np.abs(utot))) * np.pi / float(Vpi)
+    units = prec * _pm_units(phis, phi_tot)
+    rot = np.exp(1j * np.pi * utot / float(Vpi))
+    what = 'pi*u/Vpi' if len(ops) == 1 else 'pi*(sum of drives)/Vpi'
+
     noisy_drive = any(c == 'electrical_signal_noisy' for c, _ in ops)
     if noisy_drive:
         # The statement does not say whether the noise component of a drive takes part in the phase shift; what it does say
@@ -501,57 +719,64 @@ def pm_case(case):
             i = np.unravel_index(int(np.argmax(np.abs(pin - pout))), pin.shape)
             fail('PM:total-power-changed:noisy-drive', f'drive with an electrical noise component: sample {i}: |S+N|^2 in = {pin[i]!r}, out = {pout[i]!r} '
                                                        f'(signal and noise rotated by different angles)')
-        return res(viol=viol, obs=obs, nontrivial=True, stats=stats)
-
-    phis = [float(np.max(np.abs(u))) * np.pi / float(Vpi) for u in us]
-    phi_tot = float(np.max(np.abs(utot))) * np.pi / float(Vpi)
-    units = prec * _pm_units(phis, phi_tot)
-    rot = np.exp(1j * np.pi * utot / float(Vpi))
-    what = 'pi*u/Vpi' if len(ops) == 1 else 'pi*(sum of drives)/Vpi'
-
-    e = _excess(osig, s_in * rot, np.abs(s_in), units)
-    if e:
-        fail('PM:phase-shift:signal' if len(ops) == 1 else 'PM:additivity:signal',
-             f'sample {e[0]}: out={e[1]} expected in*exp(j {what})={e[2]} |diff|={e[3]:.3g} > {units:.0f} eps*|in|={e[4]:.3g}')
-    if _nz(n_in):
-        e = _excess(onoise, n_in * rot, np.abs(n_in), units)
+        # ... and the angle is pi*u/Vpi with u = drive.signal or u = drive.signal + drive.noise (both readings accepted, nothing else),
+        # the same u for the signal and for the accompanying optical noise
+        ok = False
+        for ueff in (utot, utot + sum(drive_noise(N) for c, _ in ops if c == 'electrical_signal_noisy')):
+            ph = float(np.max(np.abs(ueff))) * np.pi / float(Vpi)
+            un = prec * _pm_units([ph], ph)
+            rot = np.exp(1j * np.pi * ueff / float(Vpi))
+            good = not _excess(osig, s_in * rot, np.abs(s_in), un)
+            if good and _nz(n_in):
+                good = onoise is not None and not _excess(onoise, n_in * rot, np.abs(n_in), un)
+            ok = ok or good
+        if not ok:
+            fail('PM:phase-shift:noisy-drive', 'drive with an electrical noise component: the output is in*exp(j pi u/Vpi) neither with '
+                                               'u = drive.signal nor with u = drive.signal + drive.noise (signal and optical noise alike)')
+    else:
+        e = _excess(osig, s_in * rot, np.abs(s_in), units)
         if e:
-            fail('PM:phase-shift:noise' if len(ops) == 1 else 'PM:additivity:noise',
-                 f'noise sample {e[0]}: out={e[1]} expected noise*exp(j {what})={e[2]} |diff|={e[3]:.3g} > tol {e[4]:.3g}')
-    elif onoise is not None and np.any(onoise != 0):
-        fail('PM:noise-created', f'input noise absent/zero but output noise is {_short(onoise)}')
+            fail('PM:phase-shift:signal' if len(ops) == 1 else 'PM:additivity:signal',
+                 f'sample {e[0]}: out={e[1]} expected in*exp(j {what})={e[2]} |diff|={e[3]:.3g} > {units:.0f} eps*|in|={e[4]:.3g}')
+        if _nz(n_in):
+            e = _excess(onoise, n_in * rot, np.abs(n_in), units)
+            if e:
+                fail('PM:phase-shift:noise' if len(ops) == 1 else 'PM:additivity:noise',
+                     f'noise sample {e[0]}: out={e[1]} expected noise*exp(j {what})={e[2]} |diff|={e[3]:.3g} > tol {e[4]:.3g}')
+        elif onoise is not None and np.any(onoise != 0):
+            fail('PM:noise-created', f'input noise absent/zero but output noise is {_short(onoise)}')
 
-    # instantaneous power of the total field (signal plus noise) unchanged
-    tin = s_in if n_in is None else s_in + n_in
-    tout = osig if onoise is None else osig + onoise
-    pin, pout = np.abs(tin) ** 2, np.abs(tout) ** 2
-    mag = (np.abs(s_in) + (0 if n_in is None else np.abs(n_in))) ** 2
-    if np.any(np.abs(pin - pout) > 2 * units * EPS * mag):
-        i = np.unravel_index(int(np.argmax(np.abs(pin - pout))), pin.shape)
-        fail('PM:total-power-changed', f'sample {i}: |S+N|^2 in = {pin[i]!r}, out = {pout[i]!r}')
+        # instantaneous power of the total field (signal plus noise) unchanged
+        tin = s_in if n_in is None else s_in + n_in
+        tout = osig if onoise is None else osig + onoise
+        pin, pout = np.abs(tin) ** 2, np.abs(tout) ** 2
+        mag = (np.abs(s_in) + (0 if n_in is None else np.abs(n_in))) ** 2
+        if np.any(np.abs(pin - pout) > 2 * units * EPS * mag):
+            i = np.unravel_index(int(np.argmax(np.abs(pin - pout))), pin.shape)
+            fail('PM:total-power-changed', f'sample {i}: |S+N|^2 in = {pin[i]!r}, out = {pout[i]!r}')
 
-    # composition: the chain equals ONE library call with the summed drive
-    if len(ops) > 1:
-        allscalar = all(is_scalar_cont(c) for c, _ in ops)
-        stats['pm_calls'] += 1
-        z, exc = lib_call(PM, x, realise(utot, 'float' if allscalar else 'ndarray'), Vpi)
-        if exc is not None:
-            fail(f'PM:{"float" if allscalar else "ndarray"}-drive:{type(exc).__name__}', f'PM(x, a+b) raised {type(exc).__name__}: {exc}')
-        else:
-            e = _excess(np.asarray(z.signal), osig, np.abs(s_in), 2 * units)
-            en = None
-            if _nz(n_in) and z.noise is not None:
-                en = _excess(np.asarray(z.noise), onoise, np.abs(n_in), 2 * units)
-            if e or en or (_nz(n_in) and z.noise is None):
-                fail('PM:additivity:vs-single-call', f'chain result differs from PM(x, sum of drives): {e or en or "noise missing in the single call"}')
-        stats['pm_chains'] = 1
+        # composition: the chain equals ONE library call with the summed drive
+        if len(ops) > 1:
+            allscalar = all(is_scalar_cont(c) for c, _ in ops)
+            stats['pm_calls'] += 1
+            z, exc = lib_call(PM, x, realise(utot, 'float' if allscalar else 'ndarray'), Vpi_s)
+            if exc is not None:
+                fail(f'PM:{"float" if allscalar else "ndarray"}-drive:{type(exc).__name__}', f'PM(x, a+b) raised {type(exc).__name__}: {exc}')
+            else:
+                e = _excess(np.asarray(z.signal), osig, np.abs(s_in), 2 * units)
+                en = None
+                if _nz(n_in) and z.noise is not None:
+                    en = _excess(np.asarray(z.noise), onoise, np.abs(n_in), 2 * units)
+                if e or en or (_nz(n_in) and z.noise is None):
+                    fail('PM:additivity:vs-single-call', f'chain result differs from PM(x, sum of drives): {e or en or "noise missing in the single call"}')
+            stats['pm_chains'] = 1
 
     # mismatched lengths raise ValueError (single-op cases only)
     if len(ops) == 1 and not is_scalar_cont(ops[0][0]):
         cont, spec = ops[0]
         for Nbad in wrong_lengths(N, cont):
             ubad = drive_values(spec, Vpi, cont, Nbad)
-            ob, ex = lib_call(PM, x, realise(ubad, cont), Vpi)
+            ob, ex = lib_call(PM, x, realise(ubad, cont), Vpi_s)
             stats['pm_wrong_length_calls'] = stats.get('pm_wrong_length_calls', 0) + 1
             if ex is None:
                 fail(f'PM:wrong-length-accepted:{cont}', f'{cont} drive of length {Nbad} for a field of length {N} was accepted '
@@ -561,7 +786,7 @@ def pm_case(case):
         # a length-1 array against N > 1 samples: rejected with ValueError or applied as the constant drive (statement is silent which)
         if N > 1:
             u1 = drive_values(spec, Vpi, cont, 1)
-            o1, ex = lib_call(PM, x, realise(u1, cont), Vpi)
+            o1, ex = lib_call(PM, x, realise(u1, cont), Vpi_s)
             if ex is not None:
                 stats['pm_len1_drive_rejected'] = 1
                 if not isinstance(ex, ValueError):
@@ -569,19 +794,37 @@ def pm_case(case):
             else:
                 stats['pm_len1_drive_accepted'] = 1
                 o1s = np.asarray(o1.signal)
-                if o1s.shape != s_in.shape or _excess(o1s, s_in * np.exp(1j * np.pi * u1[0] / float(Vpi)), np.abs(s_in), units):
+                u1s = [u1[0]] + ([u1[0] + drive_noise(1)[0]] if cont == 'electrical_signal_noisy' else [])
+                if o1s.shape != s_in.shape or all(_excess(o1s, s_in * np.exp(1j * np.pi * v / float(Vpi)), np.abs(s_in), units) for v in u1s):
                     fail('PM:len1-drive:not-the-constant-drive', f'{cont} drive of length 1 ({u1[0]!r}) for a field of length {N} was accepted '
                                                                  f'but the output (shape {o1s.shape}) is not in*exp(j pi u/Vpi) sample by sample')
 
+    # the same call again with the SAME input and drive objects after the global grid was reconfigured (PM does not depend on it)
+    if len(ops) == 1:
+        import warnings
+        with warnings.catch_warnings():
+            warnings.simplefilter('ignore')
+            _gv(sps=4, R=2e9, wavelength=1300e-9)
+        stats['pm_calls'] += 1
+        yr, exr = lib_call(PM, x, first, Vpi_s)
+        if exr is not None:
+            fail(f'PM:{ops[0][0]}-drive:{type(exr).__name__}', f'the same call repeated (same objects, grid reconfigured) raised {type(exr).__name__}: {exr}')
+        elif _bytes(yr.signal) != obs[0] or _bytes(yr.noise) != obs[1]:
+            fail('PM:repeat-call-differs', 'the same call repeated with the same input and drive objects after the global grid was reconfigured '
+                                           '(sps=4, R=2e9, 1300 nm) returns a different result')
+
     nt = (_nz(n_in) or s_in.ndim == 2 or any(not is_scalar_cont(c) or c != 'float' for c, _ in ops)
-          or (len(ops) > 1 and bool(np.any(utot != 0))))
+          or (len(ops) > 1 and bool(np.any(utot != 0))) or noisy_drive)
     return res(viol=viol, obs=obs, nontrivial=bool(nt), stats=stats)
 
 
 # ----------------------------------------------------------------------------- LASER
 GRIDS = [{}, {'sps': 8, 'R': 1e9}]
+# hardening pass: fs alone; (R, fs) with a non-integer fs/R; (sps, R) giving a non-integer fs; (sps, fs) with another wavelength and a slot count
+GRIDS_X = [{'fs': 20e9}, {'R': 3e9, 'fs': 10e9}, {'sps': 7, 'R': 1e9 / 3}, {'sps': 16, 'fs': 25e9, 'wavelength': 1310e-9, 'N': 8}]
 LASER_N = [16, 64]
 LASER_N_SHORT = [1, 2]               # degenerate records: only the level clause (and the trivial peak) applies
+LASER_N_ODD = [13, 127]              # prime record lengths (no bin at fs/2, df = fs*m/N is not exact)
 LASER_T0 = [0, 3]
 # dtype / unit of the time vector: seconds on the gv grid as float64 / float32, or integer sample indices (1 s steps)
 # as int64 / int32 / uint8  (LASER derives the envelope from `t`, so the dtype of t must not leak into the amplitude)
@@ -591,14 +834,29 @@ LASER_P = [0.0, 10.0, -30.0, 23.5]
 LASER_LW = [None, 0.0, 1e5, 1e7, 1e9]
 LASER_ANS = ['zero', 'ramp', 'altpi', 'seeded', 'big']
 NYQ_OUT = [0.5 + 2.0 ** -20, -(0.5 + 2.0 ** -20), 0.75, -0.75, 1.0, -1.0, 10.0, -10.0]
+# hardening pass (part laser.lattice): (value, scalar type) spellings of p / lw / df, extreme powers, RIN values, a far time offset
+LASER_P_X = [(0.0, 'int'), (10.0, 'int'), (-30.0, 'int'), (-30.0, 'npint64'), (10.0, 'npint32'), (23.5, 'npf32'), (23.5, 'npf64'),
+             (10.0, 'zero_d'), (1.0, 'bool'), (-90.0, 'float'), (50.0, 'float')]
+LASER_LW_X = [(0.0, 'int'), (1e5, 'int'), (1e7, 'npint64'), (1e5, 'npint32'), (1e5, 'npf32'), (1e7, 'zero_d')]
+LASER_DFK = ['float', 'int', 'npint64', 'npint32', 'npf32', 'zero_d', 'npf64']
+LASER_RIN = [None, -140.0, -150, -120.0]      # dB/Hz (-150 is a python int)
+LASER_T0_X = [10 ** 6]
 
 
-def _answer(kind, seed):
+def _answer(kind, seed, lw_on=True, rin_on=False):
+    """answers of the scripted numpy.random.normal.  LASER asks first for the phase-noise increments (iff lw is not None), then for the
+    RIN samples (iff rin is not None); the RIN answers are always 2*cos(1+i) standard deviations (|.| <= 2: far from the -1 guard)"""
+    state = {'i': 0}
+
     def f(fn, info):
+        i = state['i']
+        state['i'] += 1
         n = info['size']
         n = int(np.prod(n)) if n is not None else 1
         sc = info.get('scale', 1.0)
         sc = sc if isinstance(sc, float) else 1.0
+        if fn == 'normal' and rin_on and i == (1 if lw_on else 0):
+            return 2.0 * np.cos(1.0 + np.arange(n))
         if fn != 'normal' or kind == 'zero' or not sc:
             return None
         if kind == 'ramp':
@@ -619,10 +877,11 @@ def laser_case(case):
     fs, dt = float(gv.fs), float(gv.dt)
     N, t0, p, lw, ans, m, seed = case['N'], case['t0'], case['p'], case['lw'], case['ans'], case['m'], case['seed']
     tk = case.get('tk', 'f64')
+    pk, lwk, dfk, rin = case.get('pk', 'float'), case.get('lwk', 'float'), case.get('dfk', 'float'), case.get('rin')
     if tk in ('f64', 'f32'):
         t = ((np.arange(N) + t0) * dt).astype(T_DTYPE[tk])
         step = dt
-        df = None if m is None else fs * (m / N)      # m/N is dyadic -> exact; |df| <= fs/2 exactly
+        df = None if m is None else fs * (m / N)      # m/N dyadic -> exact; |df| <= fs/2 exactly (odd N: |m/N| < 1/2)
         tdesc = f'((arange({N})+{t0})*dt).astype({tk})'
     else:
         # integer sample indices: the grid of t is 1 s, bin m of the N-point FFT is m/N Hz (far inside gv.fs/2)
@@ -630,25 +889,30 @@ def laser_case(case):
         step = 1.0
         df = None if m is None else m / N
         tdesc = f'(arange({N})+{t0}).astype({tk})'
+    # the scalar arguments in another scalar type wherever the value is exactly representable there
+    p_s = spell(pk, p)
+    lw_s = None if lw is None else spell(lwk, lw)
+    df_s = None if df is None else spell(dfk, df)
     # float32 time vector: numpy evaluates the envelope / the offset phasor in single precision
     prec = EPS32 / EPS if tk == 'f32' else 1.0
     viol, stats = [], {'laser_calls': 0, f'laser_t_{tk}': 1}
 
     def fail(key, msg):
-        viol.append((key, f'LASER(t={tdesc}, p={p}, lw={lw}, rin=None, df={df!r}) fs={fs:g} phase-noise answers={ans}: {msg}'))
+        viol.append((key, f'LASER(t={tdesc}, p={p_s!r}, lw={lw_s!r}, rin={rin!r}, df={df_s!r}) grid={case["grid"]} fs={fs:g} '
+                          f'phase-noise answers={ans}: {msg}'))
 
-    def run(dfv):
-        script = ScriptedRNG(_answer(ans, seed))
+    def run(dfv, lwv=lw_s):
+        script = ScriptedRNG(_answer(ans, seed, lw_on=lwv is not None, rin_on=rin is not None))
         stats['laser_calls'] += 1
         try:
             with scripted_rng(script):
-                return LASER(t, p, lw=lw, rin=None, df=dfv), None, script
+                return LASER(t, p_s, lw=lwv, rin=rin, df=dfv), None, script
         except Horizon:
             raise
         except Exception as e:  # noqa
             return None, e, script
 
-    out, exc, script = run(df)
+    out, exc, script = run(df_s)
     if exc is not None:
         fail(f'LASER:within-nyquist:{type(exc).__name__}', f'raised {type(exc).__name__}: {exc}')
         return res(viol=viol, obs=('EXC', type(exc).__name__), nontrivial=True, stats=stats)
@@ -660,24 +924,39 @@ def laser_case(case):
     P = 1e-3 * 10.0 ** (p / 10.0)
     tot = E if out.noise is None else E + np.asarray(out.noise)
     pw = np.abs(tot) ** 2
-    # level: idbm exponent rounding (2.3*6 eps) + pow ulp on both sides, sqrt+square, two unit phasors, two products: < 32 eps; x2
-    if np.any(np.abs(pw - P) > 64 * EPS * prec * P):
-        i = int(np.argmax(np.abs(pw - P)))
-        fail('LASER:power-not-constant', f'sample {i}: |E|^2 = {pw[i]!r}, P = {P!r} (rel. dev. {abs(pw[i] - P) / P:.3g})')
+    if rin is None:
+        # level: idbm exponent rounding (2.3*6 eps) + pow ulp on both sides, sqrt+square, two unit phasors, two products: < 32 eps; x2
+        if np.any(np.abs(pw - P) > 64 * EPS * prec * P):
+            i = int(np.argmax(np.abs(pw - P)))
+            fail('LASER:power-not-constant', f'sample {i}: |E|^2 = {pw[i]!r}, P = {P!r} (rel. dev. {abs(pw[i] - P) / P:.3g})')
+    else:
+        # with RIN the statement fixes no level; but the phase-noise and frequency-offset terms are still pure rotations: the
+        # instantaneous power equals that of the SAME laser (same scripted RIN samples) without linewidth and offset
+        plain, excp, _ = run(None, None)
+        if excp is not None:
+            fail(f'LASER:within-nyquist:{type(excp).__name__}', f'lw=None, df=None raised {type(excp).__name__}: {excp}')
+        else:
+            pw0 = np.abs(np.asarray(plain.signal)) ** 2
+            stats['laser_rin_cases'] = 1
+            if np.any(np.abs(pw - pw0) > 64 * EPS * prec * pw0) or not np.all(pw0 > 0):
+                i = int(np.argmax(np.abs(pw - pw0)))
+                fail('LASER:phase-terms-change-power:rin', f'sample {i}: |E|^2 = {pw[i]!r} with lw/df, {pw0[i]!r} without (same RIN samples): '
+                                                           f'the phase-noise / offset terms are not pure rotations')
     phase_free = lw is None or ans == 'zero' or lw == 0.0
     kb = None if m is None else m % N
-    if phase_free:
+    if phase_free and rin is None:
         k = int(np.argmax(np.abs(np.fft.fft(E))))
         want = 0 if kb is None else kb
         if k != want:
             fail('LASER:spectral-peak-not-at-df', f'no phase noise: FFT peak at bin {k} (f = {np.fft.fftfreq(N, step)[k]:g} Hz), df = {df!r} is bin {want}')
     if m is not None:
-        # the frequency-offset term alone: same scripted phase noise with and without df
+        # the frequency-offset term alone: same scripted phase noise (and RIN samples) with and without df
         base, exc0, script0 = run(None)
         if exc0 is not None:
             fail(f'LASER:within-nyquist:{type(exc0).__name__}', f'df=None raised {type(exc0).__name__}: {exc0}')
         else:
-            ratio = E * np.conj(np.asarray(base.signal)) / P
+            B = np.asarray(base.signal)
+            ratio = E * np.conj(B) / (P if rin is None else np.abs(B) ** 2)
             if np.any(np.abs(np.abs(ratio) - 1) > 64 * EPS * prec):
                 fail('LASER:offset-term-not-a-rotation', f'|E(df)/E(df=None)| deviates from 1 by {np.max(np.abs(np.abs(ratio) - 1)):.3g}')
             k = int(np.argmax(np.abs(np.fft.fft(ratio))))
@@ -687,16 +966,28 @@ def laser_case(case):
     # conformance of the documented Wiener model (statistic only, not part of the statement)
     if lw is not None and script.requests:
         stats['laser_normal_requests'] = len(script.requests)
-    nt = (lw is not None and not phase_free) or (m not in (None, 0))
+    nt = (lw is not None and not phase_free) or (m not in (None, 0)) or rin is not None
     return res(viol=viol, obs=obs, nontrivial=bool(nt), stats=stats)
 
 
 def laser_nyquist_case(case):
+    """offsets beyond Nyquist must raise ValueError.  case['f']: a factor of fs, or 'ulp+' / 'ulp-' (the neighbours of +-fs/2 outside),
+    or 'int+' / 'int-' (the integers floor(fs/2)+1 as python int / numpy int64)"""
     from opticomlib.devices import LASER
     gv = gv_reset(**case['grid'])
     fs, dt = float(gv.fs), float(gv.dt)
     t = np.arange(case['N']) * dt
-    df = fs * case['f']
+    f = case['f']
+    if f == 'ulp+':
+        df = float(np.nextafter(gv.fs / 2, np.inf))
+    elif f == 'ulp-':
+        df = -float(np.nextafter(gv.fs / 2, np.inf))
+    elif f == 'int+':
+        df = int(np.floor(fs / 2)) + 1
+    elif f == 'int-':
+        df = np.int64(-(int(np.floor(fs / 2)) + 1))
+    else:
+        df = fs * f
     out, exc = None, None
     try:
         with scripted_rng(ScriptedRNG(_answer(case['ans'], 0))):
@@ -707,10 +998,223 @@ def laser_nyquist_case(case):
         exc = e
     viol = []
     if exc is None:
-        viol.append(('LASER:beyond-nyquist-accepted', f'LASER(df={df!r}) with fs={fs:g} (|df| > fs/2) returned instead of raising'))
+        viol.append(('LASER:beyond-nyquist-accepted', f'LASER(df={df!r}) with grid {case["grid"]}, fs={fs!r} (|df| > fs/2 = {fs / 2!r}) '
+                                                                f'returned instead of raising'))
     elif not isinstance(exc, ValueError):
         viol.append((f'LASER:beyond-nyquist:{type(exc).__name__}', f'LASER(df={df!r}) with fs={fs:g} raised {type(exc).__name__} instead of ValueError: {exc}'))
-    return res(viol=viol, obs=('raised', type(exc).__name__ if exc else None, case['f']), nontrivial=True, stats={'laser_calls': 1})
+    return res(viol=viol, obs=('raised', type(exc).__name__ if exc else None, str(f)), nontrivial=True, stats={'laser_calls': 1})
+
+
+def laser_gvseq_case(case):
+    """LASER reads the grid (fs for the Nyquist guard, dt for the linewidth) at CALL time: grid g1, one call, the grid reconfigured to g2
+    (no clean in between), then calls whose legality depends on the grid in force"""
+    import warnings
+    from opticomlib.devices import LASER
+    from opticomlib.typing import gv as _gv
+    gv = gv_reset(**case['g1'])
+    N = case['N']
+    fs1 = float(gv.fs)
+    viol, stats = [], {'laser_calls': 0}
+
+    def fail(key, msg):
+        viol.append((key, f'gv({case["g1"]}); LASER; gv({case["g2"]}); then {msg}'))
+
+    def call(df):
+        stats['laser_calls'] += 1
+        t = np.arange(N) * float(_gv.dt)
+        try:
+            with scripted_rng(ScriptedRNG(_answer('ramp', 0))):
+                return LASER(t, 0.0, lw=case['lw'], rin=None, df=df), None
+        except Horizon:
+            raise
+        except Exception as e:  # noqa
+            return None, e
+
+    o1, e1 = call(fs1 / 2)
+    if e1 is not None:
+        viol.append((f'LASER:within-nyquist:{type(e1).__name__}', f'gv({case["g1"]}); LASER(df=fs/2) raised {type(e1).__name__}: {e1}'))
+    with warnings.catch_warnings():
+        warnings.simplefilter('ignore')
+        _gv(**case['g2'])
+    fs2 = float(_gv.fs)
+    obs = [fs1, fs2]
+    inside = [(fs2 / 2, N // 2), (-fs2 / 2, N // 2), (fs2 * 0.375, 3 * N // 8)]
+    outside = [float(np.nextafter(fs2 / 2, np.inf)), -float(np.nextafter(fs2 / 2, np.inf)), 0.75 * fs2]
+    for dfo in (fs1 / 2, -fs1 * 0.375):          # legal under the FIRST grid; under the second one only if it fits
+        if abs(dfo) <= fs2 / 2:
+            inside.append((dfo, None))
+        else:
+            outside.append(dfo)
+    for df, kb in inside:
+        o, e = call(df)
+        obs.append(('in', df, None if e is None else type(e).__name__))
+        if e is not None:
+            fail(f'LASER:within-nyquist:{type(e).__name__}', f'LASER(df={df!r}) with fs={fs2!r} in force raised {type(e).__name__}: {e}')
+            continue
+        E = np.asarray(o.signal)
+        if E.shape != (N,) or np.any(np.abs(np.abs(E) ** 2 - 1e-3) > 64 * EPS * 1e-3):
+            fail('LASER:power-not-constant', f'LASER(df={df!r}): |E|^2 != P')
+        if kb is not None and case['lw'] is None and int(np.argmax(np.abs(np.fft.fft(E)))) != kb:
+            fail('LASER:spectral-peak-not-at-df', f'LASER(df={df!r}) with fs={fs2!r} in force: FFT peak at bin {int(np.argmax(np.abs(np.fft.fft(E))))}, not {kb}')
+    for df in outside:
+        o, e = call(df)
+        obs.append(('out', df, None if e is None else type(e).__name__))
+        if e is None:
+            fail('LASER:beyond-nyquist-accepted', f'LASER(df={df!r}) with fs={fs2!r} in force (|df| > fs/2) returned instead of raising')
+        elif not isinstance(e, ValueError):
+            fail(f'LASER:beyond-nyquist:{type(e).__name__}', f'LASER(df={df!r}) raised {type(e).__name__} instead of ValueError: {e}')
+    return res(viol=viol, obs=tuple(obs), nontrivial=fs1 != fs2, stats=stats)
+
+
+# ----------------------------------------------------------------------------- invalid / alternative pol values
+VALID_POL_X = ['npstr:x', 'npstr:y']          # numpy's str subclass: equal to 'x' / 'y', must behave like them
+
+
+def mzm_badpol_case(case):
+    """`pol` is one of two settings.  The statement says nothing about other values, so a value that is not 'x' / 'y' may be rejected (any
+    exception) - but if it is ACCEPTED the result must be that of one of the two settings (one polarisation modulated, the other one
+    extinguished): there is no third behaviour in the statement."""
+    from opticomlib.devices import MZM
+    gv_reset()
+    layout, noise, cont, polv, N, seed = case['layout'], case['noise'], case['cont'], case['pol'], case['N'], case['seed']
+    x, s_in, n_in = make_input(layout, noise, N, seed)
+    spec = ('lvl', 1, N) if is_scalar_cont(cont) else ('wave', 'ramp6', N)
+    d = realise(drive_values(spec, 5.0, cont, N), cont)
+    valid = isinstance(polv, str) and polv.startswith('npstr:')
+    pv = np.str_(polv[6:]) if valid else polv
+    viol, stats = [], {'mzm_calls': 3}
+    refs = {}
+    for q in ('x', 'y'):
+        o, e = lib_call(MZM, x, d, pol=q)
+        refs[q] = None if e is not None else (_bytes(o.signal), _bytes(o.noise))
+    o, e = lib_call(MZM, x, d, pol=pv)
+    got = None if e is not None else (_bytes(o.signal), _bytes(o.noise))
+    where = f'MZM(layout={layout}, noise={noise}, drive={cont}, pol={pv!r})'
+    if valid:
+        if e is not None:
+            viol.append((f'MZM:pol-spelling:{type(e).__name__}', f'{where}: numpy str equal to {polv[6:]!r} raised {type(e).__name__}: {e}'))
+        elif got != refs[polv[6:]]:
+            viol.append(('MZM:pol-spelling:differs', f'{where}: result differs from pol={polv[6:]!r}'))
+    elif e is not None:
+        stats[f'mzm_badpol_rejected_{type(e).__name__}'] = 1
+    else:
+        stats['mzm_badpol_accepted'] = 1
+        if got not in (refs['x'], refs['y']):
+            viol.append(('MZM:invalid-pol-accepted:neither-x-nor-y', f'{where} was accepted and the result is neither that of pol=\'x\' nor of pol=\'y\' '
+                                                                    f'(output signal {_short(o.signal)})'))
+    return res(viol=viol, obs=('badpol', repr(polv), None if e is None else type(e).__name__, got), nontrivial=True, stats=stats)
+
+
+# ----------------------------------------------------------------------------- integer drives at the limits of their dtype
+INT_LIMIT_DT = ['int8', 'uint8', 'int16', 'int32', 'int64']
+INT_LIMIT_BIAS = [('int', 0), ('int', 1), ('int', -1), ('npint64', 1), ('npint64', -1), ('float', 1), ('float', -1)]
+
+
+def intlimit_case(case):
+    """drive = integer ndarray holding the largest / smallest value of its dtype, Vpi = 0.8*max (theta about pi/1.6), bias 0 / +1 / -1 V
+    given as python int, as numpy int64, or as float.  Reference: exact integer sum, then the closed form."""
+    from opticomlib.devices import MZM, PM
+    gv_reset()
+    dev, dtn, end, (bk, bv), noise, seed = case['dev'], case['dt'], case['end'], case['bias'], case['noise'], case['seed']
+    dt = np.dtype(dtn)
+    info = np.iinfo(dt)
+    v = int(info.max if end == 'max' else info.min)
+    N = 6
+    x, s_in, n_in = make_input('1pol', noise, N, seed)
+    Vpi = 0.8 * float(info.max)
+    d = np.full(N, v, dt)
+    bias = int(bv) if bk == 'int' else (np.int64(bv) if bk == 'npint64' else float(bv))
+    key = f'{dev}:int-limit-drive'
+    where = (f'{dev}(1pol noise={noise}, drive=np.full(6, {v}, {dtn}), ' + (f'bias={bias!r}, ' if dev == 'MZM' else '') + f'Vpi={Vpi!r})')
+    viol, stats = [], {f'{dev.lower()}_calls': 1}
+    if dev == 'MZM':
+        out, e = lib_call(MZM, x, d, bias=bias, Vpi=Vpi)
+        th = np.pi * float(v + int(bv)) / (2.0 * Vpi)
+        r = 10.0 ** (-26.0 / 20.0)
+        h = np.cos(th) + 1j * r * np.sin(th)
+        units = _mzm_units(abs(th))
+    else:
+        out, e = lib_call(PM, x, d, Vpi)
+        ph = np.pi * float(v) / Vpi
+        h = np.exp(1j * ph)
+        units = _pm_units([abs(ph)], abs(ph))
+    if e is not None:
+        viol.append((key, f'{where} raised {type(e).__name__}: {e}'))
+        return res(viol=viol, obs=('EXC', type(e).__name__), nontrivial=True, stats=stats)
+    osig = np.asarray(out.signal)
+    obs = (_bytes(osig), _bytes(out.noise))
+    ex = _excess(osig, s_in * h, np.abs(s_in), units) if osig.shape == s_in.shape else ('shape', osig.shape, None, 0.0, 0.0)
+    if ex:
+        viol.append((key, f'{where}: sample {ex[0]}: out={ex[1]} expected {ex[2]} (the drive voltage is {v}' +
+                          (f' + {int(bv)} = {v + int(bv)} V' if dev == 'MZM' else ' V') + ')'))
+    if _nz(n_in):
+        if out.noise is None or _excess(np.asarray(out.noise), n_in * h, np.abs(n_in), units):
+            viol.append((key, f'{where}: the noise is not modulated like the signal'))
+    return res(viol=viol, obs=obs, nontrivial=True, stats=stats)
+
+
+# ----------------------------------------------------------------------------- mixed chains: the result of one device fed to the next
+MIX_OPS = [('MZM', 'float', ('lvl', 1, 6), {}),
+           ('MZM', 'ndarray', ('wave', 'ramp6', 6), {'pol': 'y'}),
+           ('MZM', 'electrical_signal', ('wave', 'neg6', 6), {'ER_dB': 0.0, 'loss_dB': 2.0, 'bias': 2.5}),
+           ('PM', 'float', ('lvl', 4, 6), {}),
+           ('PM', 'ndarray', ('wave', 'alt01', 6), {}),
+           ('PM', 'electrical_signal', ('wave', 'ramp6', 6), {})]
+
+
+def chain_case(case):
+    """every step is checked against ITS OWN actual input (the object returned by the previous device call)"""
+    from opticomlib.devices import MZM, PM
+    gv_reset()
+    layout, noise, N, seed, ops = case['layout'], case['noise'], 6, case['seed'], case['ops']
+    x, s_in, n_in = make_input(layout, noise, N, seed)
+    Vpi = 5.0
+    viol, stats = [], {'mzm_calls': 0, 'pm_calls': 0, 'mixed_chains': 1}
+    desc = ' -> '.join(f'{MIX_OPS[i][0]}({MIX_OPS[i][1]}{MIX_OPS[i][3] or ""})' for i in ops)
+    y = x
+    for k, i in enumerate(ops):
+        dev, cont, spec, kw = MIX_OPS[i]
+        u = drive_values(spec, Vpi, cont, N)
+        sp = np.array(y.signal).astype(complex)
+        npv = None if y.noise is None else np.array(y.noise).astype(complex)
+        stats[f'{dev.lower()}_calls'] += 1
+        if dev == 'MZM':
+            y2, e = lib_call(MZM, y, realise(u, cont), Vpi=Vpi, **kw)
+            rl = 10.0 ** (-kw.get('loss_dB', 0.0) / 20.0)
+            th = np.pi * (u + kw.get('bias', 0.0)) / (2.0 * Vpi)
+            h = rl * (np.cos(th) + 1j * 10.0 ** (-kw.get('ER_dB', 26.0) / 20.0) * np.sin(th))
+            units, scale = _mzm_units(float(np.max(np.abs(th)))), rl
+        else:
+            y2, e = lib_call(PM, y, realise(u, cont), Vpi)
+            ph = float(np.max(np.abs(u))) * np.pi / Vpi
+            h = np.exp(1j * np.pi * u / Vpi)
+            units, scale = _pm_units([ph], ph), 1.0
+
+        def fail(clause, msg):
+            viol.append((f'{dev}:chain:{clause}', f'chain [{desc}] on (layout={layout}, noise={noise}), step {k + 1} ({dev}): {msg}'))
+        if e is not None:
+            fail(type(e).__name__, f'raised {type(e).__name__}: {e}')
+            return res(viol=viol, obs=('EXC', k, type(e).__name__), nontrivial=True, stats=stats)
+        o = np.asarray(y2.signal)
+        on = None if y2.noise is None else np.asarray(y2.noise)
+        if o.shape != sp.shape or (on is not None and on.shape != sp.shape):
+            fail('shape', f'output shape {o.shape} != shape {sp.shape} of the field it was given')
+            return res(viol=viol, obs=('SHAPE', k), nontrivial=True, stats=stats)
+        ref_s, ref_n = sp * h, None if npv is None else npv * h
+        if dev == 'MZM' and sp.ndim == 2:
+            off = 1 if kw.get('pol', 'x') == 'x' else 0
+            ref_s[off] = 0
+            if ref_n is not None:
+                ref_n[off] = 0
+        if _excess(o, ref_s, scale * np.abs(sp), units):
+            fail('transfer:signal', 'the output is not the transfer function applied to the field returned by the previous device')
+        if _nz(ref_n):
+            if on is None or _excess(on, ref_n, scale * np.abs(npv), units):
+                fail('transfer:noise', 'the noise is not modulated / rotated like the signal')
+        elif on is not None and np.any(on != 0) and not _nz(npv):
+            fail('noise-created', 'noise appears although the field it was given had none')
+        y = y2
+    return res(viol=viol, obs=(_bytes(y.signal), _bytes(y.noise)), nontrivial=True, stats=stats)
 
 
 # ----------------------------------------------------------------------------- spaces
@@ -728,34 +1232,83 @@ def deviations(axes, k):
     return out
 
 
-def mzm_cases(k, seed, layouts=None):
+def mzm_cases(k, seed, layouts=None, scalar_conts=None, wave_conts=None, noises=None, extra=({},)):
+    """deviation lattice k over (drive, bias, Vpi, loss, ER, pol); at every point the product layouts x noise kinds x containers
+    (x the `extra` settings: parameter types / grids)"""
     layouts = LAYOUTS if layouts is None else layouts
+    scalar_conts = SCALAR_CONT if scalar_conts is None else scalar_conts
+    wave_conts = WAVE_CONT_MZM if wave_conts is None else wave_conts
     cases = []
     sizes = {}
-    for kindname, conts, specs in (('scalar', SCALAR_CONT, LVL_SPECS), ('waveform', WAVE_CONT_MZM, WAVE_SPECS)):
+    for kindname, conts, specs in (('scalar', scalar_conts, LVL_SPECS), ('waveform', wave_conts, WAVE_SPECS)):
         axes = [('drive', specs), ('bias', BIAS), ('Vpi', VPI), ('loss', LOSS), ('ER', ER), ('pol', POL)]
         lat = deviations(axes, k)
         sizes[kindname] = len(lat)
         for pi_, (r, p) in enumerate(lat):
-            for li, layout in enumerate(layouts):
-                for ni, noise in enumerate(NOISES):
-                    for ci, cont in enumerate(conts):
-                        c = dict(p)
-                        c.update(layout=layout, noise=noise, cont=cont, N=p['drive'][2], seed=seed)
-                        cases.append(((r, li, ni, 0 if kindname == 'scalar' else 1, ci, pi_), c))
+            for xi, ex in enumerate(extra):
+                for li, layout in enumerate(layouts):
+                    for ni, noise in enumerate(noises_of(layout, noises)):
+                        for ci, cont in enumerate(conts):
+                            c = dict(p)
+                            c.update(layout=layout, noise=noise, cont=cont, N=p['drive'][2], seed=seed)
+                            c.update(ex)
+                            cases.append(((r, xi, li, ni, 0 if kindname == 'scalar' else 1, ci, pi_), c))
     cases.sort(key=lambda t: t[0])
     return [c for _, c in cases], sizes
+
+
+def mzm_badpol_cases(seed):
+    return [{'layout': layout, 'noise': noise, 'cont': cont, 'pol': polv, 'N': 6, 'seed': seed}
+            for polv in VALID_POL_X + BAD_POL for layout in ('2pol', '1pol', '2pol-int32') for noise in ('none', 'alt', 'yonly')
+            for cont in ('float', 'ndarray', 'electrical_signal') if not (noise == 'yonly' and layout == '1pol')]
+
+
+def intlimit_cases(seed):
+    cases = []
+    for dev in ('MZM', 'PM'):
+        for dtn in INT_LIMIT_DT:
+            for end in ('max', 'min'):
+                for b in (INT_LIMIT_BIAS if dev == 'MZM' else [('int', 0)]):
+                    for noise in ('none', 'alt'):
+                        cases.append({'dev': dev, 'dt': dtn, 'end': end, 'bias': b, 'noise': noise, 'seed': seed})
+    return cases
+
+
+def chain_cases(depth, seed):
+    return [{'layout': layout, 'noise': noise, 'seed': seed, 'ops': list(ops)}
+            for ops in itertools.product(range(len(MIX_OPS)), repeat=depth)
+            for layout in ('1pol', '2pol', '1pol-int', '1pol-laser') for noise in ('none', 'alt', 'ramp')]
 
 
 def pm_product_cases(seed):
     cases = []
     for Vpi in VPI:
         for layout in LAYOUTS + LAYOUTS_X:
-            for noise in NOISES:
+            for noise in noises_of(layout):
                 for conts, specs in ((SCALAR_CONT, LVL_SPECS), (WAVE_CONT_PM, WAVE_SPECS)):
                     for cont in conts:
                         for spec in specs:
                             cases.append({'layout': layout, 'noise': noise, 'N': spec[2], 'seed': seed, 'Vpi': Vpi, 'ops': [(cont, spec)]})
+    return cases
+
+
+PM_VT = [(5.0, 'float'), (5.0, 'int'), (5.0, 'npint64'), (5.0, 'npint32'), (1.7, 'npf64'), (2.5, 'npf32'), (5.0, 'zero_d'), (1.0, 'bool')]
+
+
+def pm_extra_cases(seed):
+    """every container (old and new) x the scalar types of Vpi x the grid configurations, on three layouts x three noise kinds"""
+    cases = []
+    for gi, grid in enumerate(GRIDS_MP):
+        for Vpi, vt in (PM_VT if gi == 0 else PM_VT[:1]):
+            for layout in ('1pol', '2pol', '1pol-int'):
+                for noise in ('none', 'alt', 'ramp'):
+                    for conts, specs in ((SCALAR_CONT + SCALAR_CONT_X, LVL_SPECS), (WAVE_CONT_PM + WAVE_CONT_X_PM, WAVE_SPECS)):
+                        for cont in conts:
+                            if gi == 0 and vt == 'float' and cont in SCALAR_CONT + WAVE_CONT_PM:
+                                continue                                   # already in pm.product
+                            for spec in specs:
+                                cases.append({'layout': layout, 'noise': noise, 'N': spec[2], 'seed': seed, 'Vpi': Vpi, 'vt': vt,
+                                              'grid': grid, 'ops': [(cont, spec)]})
     return cases
 
 
@@ -799,9 +1352,46 @@ def laser_cases(seed):
     return cases
 
 
+def laser_lattice_cases(k, seed):
+    """deviation lattice around (float64 seconds, default grid, N=16, t0=0, p=0 dBm float, lw=1e7 float, answers=ramp, df on bin 3 as
+    float, no RIN) over ALL members of every axis (those of laser.product and the hardening members); combinations that do not
+    exist (no bin N/2 for odd N, a far time offset in a narrow time dtype, ...) are dropped"""
+    axes = [('tk', LASER_TK), ('grid', GRIDS + GRIDS_X), ('N', LASER_N + LASER_N_SHORT + LASER_N_ODD), ('t0', LASER_T0 + LASER_T0_X),
+            ('p', [(v, 'float') for v in LASER_P] + LASER_P_X),
+            ('lw', [(1e7, 'float'), None, (0.0, 'float'), (1e5, 'float'), (1e9, 'float')] + LASER_LW_X),
+            ('ans', ['ramp', 'zero', 'altpi', 'seeded', 'big']),
+            ('m', [3, None, 0, 1, -1, -3, 'N/8', '-N/8', 'N/2', '-N/2']),
+            ('dfk', LASER_DFK), ('rin', LASER_RIN)]
+    cases = []
+    for r, p in deviations(axes, k):
+        N, m = p['N'], p['m']
+        if isinstance(m, str):
+            if N % 8:
+                continue
+            m = {'N/8': N // 8, '-N/8': -(N // 8), 'N/2': N // 2, '-N/2': -(N // 2)}[m]
+        if N < 13 and m not in (None, 0):
+            continue
+        if p['t0'] > 3 and p['tk'] in ('u8', 'f32'):
+            continue
+        if p['lw'] is None and p['ans'] != 'ramp':
+            continue
+        lw, lwk = (None, 'float') if p['lw'] is None else p['lw']
+        cases.append({'grid': p['grid'], 'N': N, 't0': p['t0'], 'p': p['p'][0], 'pk': p['p'][1], 'lw': lw, 'lwk': lwk,
+                      'ans': 'zero' if lw is None else p['ans'], 'm': m, 'dfk': p['dfk'], 'rin': p['rin'], 'seed': seed, 'tk': p['tk']})
+    return cases
+
+
+NYQ_EDGE = ['ulp+', 'ulp-', 'int+', 'int-']
+
+
 def laser_nyquist_cases():
     return [{'grid': g, 'N': 64, 'p': 0.0, 'lw': lw, 'ans': 'ramp', 'f': f}
-            for g in GRIDS for lw in (None, 1e7) for f in NYQ_OUT]
+            for g in GRIDS + GRIDS_X for lw in (None, 1e7) for f in NYQ_OUT + NYQ_EDGE]
+
+
+def laser_gvseq_cases():
+    G = GRIDS + GRIDS_X
+    return [{'g1': g1, 'g2': g2, 'N': 16, 'lw': lw} for g1 in G for g2 in G for lw in (None, 1e7)]
 
 
 # minimal inputs of the two PM defects (DESIGN 8 #3, #4); replayed first so that a returning defect shows in seconds
@@ -817,11 +1407,16 @@ def run(ctx):
     seed = int(ctx.seed)
     ctx.assume('cos/sin/exp/pow of numpy are faithful to ~1 ulp; tolerances are k*eps rounding bounds relative to sqrt(loss)*|in| '
                '(MZM) or |in| (PM), k derived from the operation count and the largest phase argument (see _mzm_units/_pm_units); '
-               'with a float32 drive array / float32 time vector numpy works in single precision and eps is the float32 eps')
-    ctx.assume('the scripted RNG stands for numpy.random.normal: LASER draws its phase-noise increments only through that entry point '
-               '(any other numpy.random call fails loudly as unscripted randomness)')
+               'with a float32 drive array / float32 time vector / float32 scalar parameters numpy may work in single precision and eps is the float32 eps')
+    ctx.assume('the scripted RNG stands for numpy.random.normal: LASER draws its phase-noise increments (first request, iff lw is not None) and '
+               'its RIN samples (next request, iff rin is not None) only through that entry point (any other numpy.random call fails loudly)')
     ctx.assume('continuum quantifiers (all complex fields, all drive voltages) are covered at the per-sample alphabet points only: '
-               'fields {0,1,-1,j,.5-.5j,2} + real + seeded, 17 drive levels in steps of Vpi/4; BW (band-pass stage of MZM) is left None')
+               'fields {0,1,-1,j,.5-.5j,2} (also x1e-9, x1e6, 1e6 + 1e-3*field) + real + seeded, 17 drive levels in steps of Vpi/4 and one waveform of '
+               '100...1000 Vpi; BW (band-pass stage of MZM) is left None')
+    ctx.assume('where the statement is silent both behaviours are accepted and nothing else: a length-1 drive array against N > 1 (ValueError or '
+               'the constant drive), the noise component of an electrical_signal drive (ignored or added to the drive, alike for signal and '
+               'optical noise), numpy-integer / float32 / 0-d scalars as PM drive (documented TypeError or applied), pol values other than x / y '
+               '(any exception, or the result of one of the two settings)')
     for kind, case in REGRESS:
         ctx.run_case('regress', pm_case, case)
 
@@ -829,25 +1424,53 @@ def run(ctx):
     ctx.space('mzm.lattice.points.scalar-drive', sizes['scalar'])
     ctx.space('mzm.lattice.points.waveform-drive', sizes['waveform'])
     ctx.rule(f'MZM: deviation lattice k<={k} over (drive values[{len(LVL_SPECS)} level records | {len(WAVE_SPECS)} waveform records, field lengths '
-             f'1, 2, 3, 6, 102], bias{BIAS}*Vpi, Vpi{VPI}, '
+             f'1, 2, 3, 6, 13, 102, 1025], bias{BIAS}*Vpi, Vpi{VPI}, '
              f'loss{LOSS}, ER{ER}, pol{POL}) around (u=Vpi/4 | ramp6, 0, 5, 0, 26, x); at EVERY lattice point the full product '
-             f'layouts{LAYOUTS} x noise{NOISES} x containers{SCALAR_CONT + WAVE_CONT_MZM}; per case: transfer identity on signal and noise, '
-             f'passivity, pol extinction, container equivalence, +2Vpi periodicity, on/off ratio, every wrong drive length of '
+             f'layouts{LAYOUTS} x noise{NOISES} (+ {NOISES_2POL} for two polarisations) x containers{SCALAR_CONT + WAVE_CONT_MZM}; per case: transfer '
+             f'identity on signal and noise, passivity, pol extinction, container equivalence, +2Vpi periodicity, on/off ratio, every wrong drive length of '
              f'{{0, 2, 3, N-1, N+1, N+6, 2N}} for the field length N (N = 1 included) must raise ValueError, a length-1 drive array against '
-             f'N > 1 is either rejected with ValueError or applied as the constant drive')
+             f'N > 1 is either rejected with ValueError or applied as the constant drive; then on the SAME input and drive objects: the other pol '
+             f'setting, and the first call again after the grid was reconfigured (bitwise equal)')
     ctx.pmap('mzm.lattice', mzm_case, mz, horizon=20)
 
     mzx, sizes_x = mzm_cases(k - 1, seed, LAYOUTS_X)
     ctx.space('mzm.dtypes.points.scalar-drive', sizes_x['scalar'])
     ctx.space('mzm.dtypes.points.waveform-drive', sizes_x['waveform'])
-    ctx.rule(f'MZM stored-dtype layouts {LAYOUTS_X} (real / int64 / int32 / float32 / complex64 fields whose noise has the same dtype): '
-             f'the same lattice with k<={k - 1}, full product x noise x containers at every point, same oracles')
+    ctx.rule(f'MZM stored-dtype / scale / provenance layouts {LAYOUTS_X} (real / int64 / int32 / float32 / complex64 fields whose noise has the same '
+             f'dtype; empty second polarisation; fields x1e-9, x1e6, 1e6 + small variation; float32 noise next to a complex128 signal; '
+             f'write-protected buffers; the return value of LASER): the same lattice with k<={k - 1}, full product x noise x containers at every point, same oracles')
     ctx.pmap('mzm.dtypes', mzm_case, mzx, horizon=20)
 
+    mzc, _ = mzm_cases(k - 1, seed, LAYOUTS, SCALAR_CONT_X, WAVE_CONT_X_MZM)
+    ctx.rule(f'MZM further drive containers {SCALAR_CONT_X + WAVE_CONT_X_MZM}: lattice k<={k - 1} x layouts{LAYOUTS} x noise, same oracles (integer '
+             f'containers carry the voltages rounded and clipped to their range; the noise component of an electrical_signal drive may be '
+             f'ignored or added to the drive)')
+    ctx.pmap('mzm.containers', mzm_case, mzc, horizon=20)
+
+    thin = dict(layouts=['1pol', '2pol'], noises=['none', 'alt', 'ramp'])
+    mzp, _ = mzm_cases(k - 1, seed, extra=[{'pt': pt} for pt in PTYPES[1:]], **thin)
+    ctx.rule(f'MZM parameter types: bias, Vpi, loss_dB, ER_dB given as {PTYPES[1:]} wherever the value is exactly representable (so ER_dB = 0 / 60, '
+             f'loss_dB = 0, Vpi = 5 / 1, bias = 0 / -Vpi occur as python int, numpy int64 / int32, float64 / float32, 0-d array, bool): lattice k<={k - 1} x '
+             f'{thin["layouts"]} x {thin["noises"]} x containers{SCALAR_CONT + WAVE_CONT_MZM}; reference with the float values')
+    ctx.pmap('mzm.ptypes', mzm_case, mzp, horizon=20)
+    mzg, _ = mzm_cases(k - 1, seed, extra=[{'grid': g} for g in GRIDS_MP[1:]], **thin)
+    ctx.rule(f'MZM under other global grids {GRIDS_MP[1:]}: lattice k<={k - 1} x {thin["layouts"]} x {thin["noises"]} x containers, same oracles')
+    ctx.pmap('mzm.grids', mzm_case, mzg, horizon=20)
+    ctx.rule(f'MZM pol values: numpy str {VALID_POL_X} must behave like x / y; {len(BAD_POL)} other values {BAD_POL} are either rejected or give '
+             f'the result of one of the two settings')
+    ctx.pmap('mzm.badpol', mzm_badpol_case, mzm_badpol_cases(seed), horizon=20)
+    ctx.rule(f'integer drive arrays at the limits of their dtype {INT_LIMIT_DT} x (max, min) x bias{INT_LIMIT_BIAS} (python int, numpy int64, '
+             f'float) for MZM, and for PM: reference = exact integer sum u + bias, then the closed form')
+    ctx.pmap('intlimits', intlimit_case, intlimit_cases(seed), horizon=20)
+
     ctx.rule(f'PM: full product Vpi{VPI} x layouts{LAYOUTS + LAYOUTS_X} x noise x (3 scalar containers x {len(LVL_SPECS)} level records + '
-             f'{len(WAVE_CONT_PM)} waveform containers{WAVE_CONT_PM} x {len(WAVE_SPECS)} waveform records, field lengths 1, 2, 3, 6, 102); '
-             f'phase shift pi*u/Vpi on signal AND noise, |S+N|^2 unchanged, wrong lengths {{0, 2, 3, N-1, N+1, N+6, 2N}}, length-1 drive array against N > 1')
+             f'{len(WAVE_CONT_PM)} waveform containers{WAVE_CONT_PM} x {len(WAVE_SPECS)} waveform records, field lengths 1, 2, 3, 6, 13, 102, 1025); '
+             f'phase shift pi*u/Vpi on signal AND noise, |S+N|^2 unchanged, wrong lengths {{0, 2, 3, N-1, N+1, N+6, 2N}}, length-1 drive array against N > 1, '
+             f'the same call again on the same objects after the grid was reconfigured')
     ctx.pmap('pm.product', pm_case, pm_product_cases(seed), horizon=20)
+    ctx.rule(f'PM further containers {SCALAR_CONT_X + WAVE_CONT_X_PM}, Vpi types {PM_VT} and grids {GRIDS_MP}: every container x every record x '
+             f'(Vpi types on the default grid + the other grids with a float Vpi) x layouts (1pol, 2pol, 1pol-int) x noise (none, alt, ramp)')
+    ctx.pmap('pm.extra', pm_case, pm_extra_cases(seed), horizon=20)
 
     s2, n2 = pm_seq_cases(2, True, seed, ['1pol', '2pol'], NOISES if not quick else ['none', 'alt', 'ramp', 'zero'], VPI[:2])
     ctx.rule(f'PM sequences: ALL ordered sequences of depth 2 over a {n2}-element drive alphabet (17 float levels, ints, ndarray/int-ndarray/'
@@ -856,6 +1479,10 @@ def run(ctx):
     s3, n3 = pm_seq_cases(3, not quick, seed, ['1pol', '2pol'], ['none', 'ramp', 'alt'] if quick else NOISES, VPI[:2] if not quick else VPI[:1])
     ctx.rule(f'depth 3 over a {n3}-element alphabet ({n3 ** 3} ordered sequences)')
     ctx.pmap('pm.seq3', pm_case, s3, horizon=20)
+    cd = 2 if quick else 3
+    ctx.rule(f'mixed chains: ALL ordered sequences of depth {cd} over {len(MIX_OPS)} device calls (3 MZM settings, 3 PM drives) x layouts (1pol, 2pol, '
+             f'1pol-int, LASER output) x noise: every step against the closed form applied to the object returned by the previous step')
+    ctx.pmap('chain.mixed', chain_case, chain_cases(cd, seed), horizon=20)
 
     lc = laser_cases(seed)
     ctx.rule(f'LASER (scripted RNG): full product time-vector kinds{LASER_TK} (seconds as float64/float32, integer sample indices as '
@@ -864,7 +1491,17 @@ def run(ctx):
              f'phase-noise answer vectors{LASER_ANS} x df on bins {{None,0,+-1,+-3,+-N/8,+-N/2}}: |E|^2 == P at every sample, FFT peak at df '
              f'(of E when the phase noise is nil, of E(df)/E(df=None) under the same answers otherwise); |df| > fs/2 raises ValueError')
     ctx.pmap('laser.product', laser_case, lc, horizon=20)
+    lk = 3 if quick else 4
+    ctx.rule(f'LASER deviation lattice k<={lk} over all those axes extended by: grids{GRIDS_X}, prime N{LASER_N_ODD}, t-offset{LASER_T0_X}, '
+             f'(p, type){LASER_P_X}, (lw, type){LASER_LW_X}, type of df{LASER_DFK}, rin{LASER_RIN} (with RIN: |E|^2 equals that of the same laser '
+             f'without lw and df under the same scripted RIN samples; offset term E(df)/E(None) unit modulus with its peak at df)')
+    ctx.pmap('laser.lattice', laser_case, laser_lattice_cases(lk, seed), horizon=20)
+    ctx.rule(f'LASER Nyquist guard: df/fs in {NYQ_OUT}, the two doubles next to +-fs/2 outside, the integers +-(floor(fs/2)+1) as python int / '
+             f'numpy int64, on grids{GRIDS + GRIDS_X} x lw (None, 1e7): ValueError')
     ctx.pmap('laser.nyquist', laser_nyquist_case, laser_nyquist_cases(), horizon=20)
+    ctx.rule('LASER after the grid changed: ALL ordered pairs (g1, g2) of the 6 grids x lw (None, 1e7): a call under g1, gv(**g2) without clean, then '
+             'df = +-fs2/2, 3/8 fs2 accepted (level, peak), the doubles next to +-fs2/2 and 0.75 fs2 rejected, fs1/2 and -3/8 fs1 accepted iff within fs2/2')
+    ctx.pmap('laser.gvseq', laser_gvseq_case, laser_gvseq_cases(), horizon=20)
     ctx.extra['bounds'] = {'mzm_deviation_k': k, 'pm_seq_depth': 3, 'pm_seq_alphabet': {'depth2': n2, 'depth3': n3},
-                           'record_lengths': [1, 2, 3, 6, 102], 'mzm_dtype_layout_k': k - 1,
-                           'laser_time_vector_kinds': LASER_TK}
+                           'record_lengths': [1, 2, 3, 6, 13, 102, 1025], 'mzm_dtype_layout_k': k - 1,
+                           'laser_time_vector_kinds': LASER_TK, 'laser_lattice_k': lk, 'mixed_chain_depth': cd}
